@@ -266,18 +266,18 @@ def run(chk):
             chk.ob(R3, "%s|%s" % (name, p), ok, loc=fn.loc(i),
                    detail="%s scans the stop bits from `%s` without first testing that granule's used bit: a stale or foreign "
                           "pointer inside a block is accepted" % (name, p), key="usedscan|%s|%s" % (name, p))
-            if name.split("::")[-1] in ("release", "JitAllocatorImpl_shrink") or name.endswith("_shrink") or name.endswith("::release"):
+            if name.split("::")[-1] in ("release", "query", "JitAllocatorImpl_shrink") or name.endswith("_shrink") or name.endswith("::release"):
                 span_sites.append((name, fn, i, p, st is not None and ("span-start", p) in st))
     chk.floor(R3 + ":scans", nscan, 1)
 
     R3b = "R-SPAN-START-GUARD"
-    chk.rule(R3b, "release() and shrink() - the entry points that change a block's bookkeeping - reach the stop-bit scan only after the unit "
+    chk.rule(R3b, "release(), shrink() and query() reach the stop-bit scan only after the unit "
                   "before the looked-up one was consulted (stop bit of index - 1, directly or through a block helper): a pointer into the "
                   "middle of a span is refused instead of splitting the span")
     for name, fn, i, p, ok in span_sites:
         chk.ob(R3b, "%s|%s" % (name, p), ok, loc=fn.loc(i),
                detail="%s frees / shrinks from `%s` without checking that it is the first unit of a span" % (name, p), key="spanstart|%s" % name)
-    chk.floor(R3b + ":sites", len(span_sites), 2)
+    chk.floor(R3b + ":sites", len(span_sites), 3)
 
     # ---------------------------------------------------------------- C09.b' block pointer null-tested
     R4 = "R-BLOCK-NULL-TESTED"
